@@ -299,6 +299,30 @@ Proof.
   unfold view_max_conc in *. change (view_merge a v now) with (merge (view_buckets a v now)) in *. lia.
 Qed.
 
+(* the parameters are positional: pin their NAMES (the struct fields / reads the Go code uses in
+   each position), so that reading another field of the same type in the same place is noticed *)
+Section ParamNames.
+Import Coq.Strings.String.
+Local Open Scope string_scope.
+Local Open Scope list_scope.
+Lemma node_GetMaxAvg_params : LeafParams.node_GetMaxAvg = "max_single" :: "n_intervalMs" :: "n_sampleCount" :: nil.
+Proof. reflexivity. Qed.
+Lemma node_AvgRT_params : LeafParams.node_AvgRT = "complete_sum" :: "rt_sum" :: nil.
+Proof. reflexivity. Qed.
+Lemma view_getQPSWithTime_params : LeafParams.view_getQPSWithTime = "m_intervalInMs" :: "now" :: "sum" :: nil.
+Proof. reflexivity. Qed.
+Lemma view_AvgRT_params : LeafParams.view_AvgRT = "complete_sum" :: "rt_sum" :: nil.
+Proof. reflexivity. Qed.
+Lemma view_count_step_params : LeafParams.view_count_step = "get" :: "mb_nil" :: "ok" :: "ret_in" :: nil.
+Proof. reflexivity. Qed.
+Lemma view_maxOfSingleBucket_step_params : LeafParams.view_maxOfSingleBucket_step = "curMax_in" :: "get" :: "mb_nil" :: "now" :: "ok" :: nil.
+Proof. reflexivity. Qed.
+Lemma view_MinRT_step_params : LeafParams.view_MinRT_step = "bucket_min_rt" :: "mb_nil" :: "minRt_in" :: "now" :: "ok" :: nil.
+Proof. reflexivity. Qed.
+Lemma view_MaxConcurrency_step_params : LeafParams.view_MaxConcurrency_step = "bucket_max_conc" :: "maxConcurrency_in" :: "mb_nil" :: "now" :: "ok" :: nil.
+Proof. reflexivity. Qed.
+End ParamNames.
+
 Print Assumptions calculateStartTime_ok.
 Print Assumptions calculateTimeIdx_ok.
 Print Assumptions isBucketDeprecated_ok.
